@@ -221,10 +221,59 @@ def job(n, seed):
     return core.hyp_run(case_s(), run_case, n=n, seed=seed, kind="events")
 
 
+def job_id_cycle(start):
+    """65 536 successive events of one station (collision-risk single-shot path, encoding stubbed out): their action identifiers
+    must be pairwise distinct - the 16-bit sequence number space is used completely before any identifier returns."""
+    import flexstack.facilities.decentralized_environmental_notification_service.denm_transmission_management as dtm
+    from flexstack.facilities.decentralized_environmental_notification_service.den_service import DecentralizedEnvironmentalNotificationService
+    from flexstack.facilities.decentralized_environmental_notification_service.denm_transmission_management import DENRequest
+    from flexstack.facilities.ca_basic_service.cam_transmission_management import VehicleData
+    import flexstack.facilities.decentralized_environmental_notification_service.den_service as dsm
+    from ..vclock import VClock
+    from ..core import Partial
+    part = Partial()
+    clock = VClock(1_700_000_000.0)
+    clock.install([])
+    clock._set(dsm, "DENMCoder", lambda: fac.coder("denm"))
+    try:
+        den = DecentralizedEnvironmentalNotificationService(fac.RecBTP(clock), VehicleData(station_id=4242, station_type=5))
+        tm = den.denm_transmission_management
+        seen = []
+        tm.transmit_denm = lambda d: seen.append((d.denm["denm"]["management"]["actionId"]["originatingStationId"], d.denm["denm"]["management"]["actionId"]["sequenceNumber"]))
+        tm.sequence_number = start
+        pos = {"latitude": 413000000, "longitude": 21000000, "positionConfidenceEllipse": {"semiMajorConfidence": 4095, "semiMinorConfidence": 4095, "semiMajorOrientation": 3601},
+               "altitude": {"altitudeValue": 800001, "altitudeConfidence": "unavailable"}}
+        req = DENRequest(detection_time=fac.its_ms_of_iso(clock.now), event_position=pos, lcrw_cause_code="collisionRisk97", lcrw_subcause_code=4)
+        n = 65536
+        for _ in range(n):
+            tm.send_collision_risk_warning_denm(req)
+        out = Outcome([], labels=["id-cycle:start=%d" % start], nontrivial=True)
+        first = {}
+        for i, aid in enumerate(seen):
+            if aid in first:
+                out.violations.append(violation(ID, "C17/action-id-reused-within-65536-events", "event %d and event %d (started at sequence number %d) carry the same action identifier %r" % (first[aid], i, start, aid)))
+                break
+            first[aid] = i
+        if len(seen) != n:
+            out.violations.append(violation(ID, "C17/repetition-count:too-few", "%d collision-risk requests produced %d DENMs" % (n, len(seen))))
+        if any(not (0 <= a[1] <= 65535) for a in seen):
+            out.violations.append(violation(ID, "C17/sequence-number-out-of-range", "sequence numbers outside 0..65535: %r" % sorted({a[1] for a in seen if not 0 <= a[1] <= 65535})[:5]))
+        part.record({"start": start, "events": n}, out, kind="id_cycle")
+        part.subcount("action-id-cycle", events=n)
+    finally:
+        clock.uninstall()
+    return part
+
+
 def jobs(tier, seed):
     k = 1 if tier == "quick" else 20
-    return [{"fn": "vf.props.c17:job", "args": {"n": 100 * k, "seed": seed * 1000 + s}} for s in range(16)]
+    js = [{"fn": "vf.props.c17:job", "args": {"n": 100 * k, "seed": seed * 1000 + s}} for s in range(16)]
+    js += [{"fn": "vf.props.c17:job_id_cycle", "args": {"start": st_}} for st_ in ((0, 65530) if tier == "quick" else (0, 1, 32768, 65530, 65535))]
+    return js
 
 
 def replay(kind, case):
+    if kind == "id_cycle":
+        part = job_id_cycle(case["start"])
+        return Outcome(part.violations, labels=list(part.labels), nontrivial=True)
     return run_case(case)
